@@ -38,8 +38,39 @@ fn env_cfg(env: &Env, d: Dialect) -> Config {
     c
 }
 
+/// environment variables holding every value the generator can inject (set once, before any thread
+/// starts): DLV_C17_J<hash> = the JSON text, DLV_C17_S<hash> = the raw text of a string value
+fn env_names(value: &Value) -> (String, Option<String>) {
+    let h = hash_str(&value.to_string()) % 100_000;
+    (format!("DLV_C17_J{}", h), value.as_str().map(|_| format!("DLV_C17_S{}", h)))
+}
+
+fn setup_value_env() {
+    // every value of c17gen::gen_value, through the generator itself
+    for b in 0..=255u8 {
+        let tape = [b];
+        let mut t = Tape::new(&tape);
+        let v = c17gen::gen_value(&mut t, false).json;
+        let (j, s) = env_names(&v);
+        std::env::set_var(&j, v.to_string());
+        if let (Some(s), Some(text)) = (s, v.as_str()) {
+            std::env::set_var(&s, text);
+        }
+    }
+    std::env::remove_var("DLV_C17_UNSET");
+}
+
 fn gen_configs(t: &mut Tape, value: &Value) -> Vec<(String, Env)> {
-    let inject = format!("{{ rule: \"inject_global_value\", identifier: \"{}\", value: {} }}", NAME, value);
+    // the value is given directly, or through an environment variable (as text for a string - an
+    // EMPTY variable is a defined one - or as JSON), with or without a default that must not be used
+    let (env_json, env_text) = env_names(value);
+    let inject = match (t.choose(6), env_text) {
+        (0, _) => format!("{{ rule: \"inject_global_value\", identifier: \"{}\", env_json: \"{}\" }}", NAME, env_json),
+        (1, Some(e)) => format!("{{ rule: \"inject_global_value\", identifier: \"{}\", env: \"{}\" }}", NAME, e),
+        (2, Some(e)) => format!("{{ rule: \"inject_global_value\", identifier: \"{}\", env: \"{}\", default_value: \"unused default\" }}", NAME, e),
+        (3, _) => format!("{{ rule: \"inject_global_value\", identifier: \"{}\", env: \"DLV_C17_UNSET\", default_value: {} }}", NAME, value),
+        _ => format!("{{ rule: \"inject_global_value\", identifier: \"{}\", value: {} }}", NAME, value),
+    };
     let ra = "\"remove_assertions\"".to_string();
     let rd = "\"remove_debug_profiling\"".to_string();
     let preset = Some(to_preset(value));
@@ -106,6 +137,7 @@ fn env_from_json(v: &Value) -> Option<Env> {
 }
 
 fn run(ctx: &RunCtx) {
+    setup_value_env();
     crate::behave::ALLOW_LUAU_ESCAPES.store(ctx.avoid("unicode-escape-not-lua51"), std::sync::atomic::Ordering::Relaxed);
     let avoid_prefix = ctx.avoid("inject-prefix-shadowing");
     let avoid_mode_obj = ctx.avoid("inject-require-mode-object");
@@ -199,6 +231,7 @@ fn prefix_use_under_shadow(source: &str) -> bool {
 }
 
 fn replay(v: &Value) -> Result<(), String> {
+    setup_value_env();
     let source = v.get("source").and_then(|s| s.as_str()).ok_or("malformed C17 replay")?;
     let config = v.get("config").and_then(|s| s.as_str()).ok_or("malformed C17 replay")?;
     let mut envv = v.get("env").cloned().ok_or("malformed C17 replay")?;
